@@ -332,10 +332,19 @@ _vc = {}
 
 
 def analyse(facts):
+    """semantic behaviour table first (rules/claims_sem.py); the CFG rules of this module only for rules it left undecided"""
     k = id(facts)
     if k not in _vc:
-        _vc[k] = VC(facts)
-    return _vc[k].findings
+        from . import claims_sem
+        sem = claims_sem.verify_claims_table(facts)
+        decided = set(f.rule for f in sem if f.ok is not None)
+        undecided = set(f.rule for f in sem if f.ok is None)
+        out = [f for f in sem if f.ok is not None]
+        if undecided:
+            st = VC(facts).findings
+            out += [f for f in st if f.rule not in decided]
+        _vc[k] = out
+    return _vc[k]
 
 
 def parser_state_writes(facts, entries):
